@@ -310,6 +310,42 @@ def run_float(ctx, cases):
             ctx.fail(v["clause"], "real-valued history rejected by PoseTrace at step %d (%s)" % (v["step"], st), case, sig)
 
 
+# ---- unbounded arithmetic core (Apalache, SMT) -----------------------------------------------------
+def apalache_laws(ctx):
+    """PoseArith.tla: the update law for EVERY integer coordinate (no bound), plus a negative control that must be
+    refuted.  A missing / failing tool skips the sub-run (recorded); a refuted law is a specification error."""
+    import shutil
+    import subprocess
+    exe = shutil.which("apalache-mc")
+    if not exe:
+        ctx.extra["apalache"] = "skipped: apalache-mc not found"
+        return
+    wd = ctx.sub("apalache")
+    shutil.copy(os.path.join(core.VERIF, "spec", "PoseArith.tla"), os.path.join(wd, "PoseArith.tla"))
+    out = {}
+    for inv in ("UpdateLaw", "StrictLaw"):
+        try:
+            p = subprocess.run([exe, "check", "--init=Init", "--next=Next", "--inv=" + inv, "--length=0",
+                                "--out-dir=" + os.path.join(wd, "out"), "PoseArith.tla"], cwd=wd, stdout=subprocess.PIPE,
+                               stderr=subprocess.STDOUT, text=True, timeout=300)
+        except Exception as e:  # noqa
+            ctx.extra["apalache"] = "skipped: %s" % e
+            return
+        if "The outcome is: NoError" in p.stdout:
+            out[inv] = "holds"
+        elif "The outcome is: Error" in p.stdout or "violat" in p.stdout.lower():
+            out[inv] = "refuted"
+        else:
+            ctx.extra["apalache"] = "skipped: unexpected output"
+            return
+    ctx.extra["apalache"] = out
+    if out["UpdateLaw"] != "holds":
+        raise core.MachineryError("Apalache refutes PoseArith!UpdateLaw: the specification's rounding law is wrong")
+    if out["StrictLaw"] != "refuted":
+        raise core.MachineryError("Apalache does not refute the negative control PoseArith!StrictLaw (vacuous run?)")
+    ctx.tlc_cmds.append("apalache-mc check --init=Init --next=Next --inv=UpdateLaw --length=0 PoseArith.tla")
+
+
 # ---- main ---------------------------------------------------------------------------------------
 def run(ctx):
     ctx.rule = ("L2: every transition TLC explores in MC_Pose (2 particles, all 24 orientations, lattice positions incl. "
@@ -318,6 +354,7 @@ def run(ctx):
                 "distinct = distinct (initial list, op sequence) cases")
     ctx.assumptions += ["projection alpha (own Euler->matrix routine, 1/8-voxel lattice snap at 1e-9) is trusted",
                         "at exact half-voxel ties either integral neighbour is accepted (the property does not fix it)"]
+    apalache_laws(ctx)
     # L1: composition laws on every initial pose (they depend on the state only through one pose)
     ctx.tlc("MC_Pose", cfg("SmallInit", "MCRots", 0, "none", laws=True), name="laws")
     # L1 + transition emission
